@@ -16,6 +16,13 @@ fn run(case: &mut Case) -> Result<Outcome, String> {
     if badly_scaled {
         bad_scale(&mut case.src, &mut a);
     }
+    // the whole matrix at another scale (exact power of two, about 1e-9 .. 1e9)
+    if case.src.below(4) == 0 {
+        let k = case.src.small_int(30) as i32;
+        for v in a.iter_mut().flatten() {
+            *v *= 2f64.powi(k);
+        }
+    }
     // right-hand side: zero, consistent (A x*), or random
     let rhs_kind = case.src.below(5);
     let xstar: Vec<f64> = (0..n).map(|_| case.src.f64_in(-2.0, 2.0)).collect();
@@ -23,16 +30,22 @@ fn run(case: &mut Case) -> Result<Outcome, String> {
         0 => vec![0.0; n],
         1 | 2 => matvec(&a, &xstar),
         _ => {
-            let sc = 10f64.powf(case.src.f64_in(-6.0, 6.0));
+            // any scale: usually 1e-6 .. 1e6, sometimes 1e-140 .. 1e140 (squares still representable)
+            let sc = if case.src.below(3) == 0 { 10f64.powf(case.src.f64_in(-140.0, 140.0)) } else { 10f64.powf(case.src.f64_in(-6.0, 6.0)) };
             (0..n).map(|_| sc * case.src.f64_in(-1.0, 1.0)).collect()
         }
     };
-    let guess_kind = case.src.below(4);
+    let guess_kind = case.src.below(5);
     let x0: Vec<f64> = match guess_kind {
         0 => vec![0.0; n],
         1 => (0..n).map(|_| case.src.f64_in(-3.0, 3.0)).collect(),
         2 => xstar.clone(),
-        _ => (0..n).map(|_| 1e8 * case.src.f64_in(-1.0, 1.0)).collect(),
+        3 => (0..n).map(|_| 1e8 * case.src.f64_in(-1.0, 1.0)).collect(),
+        _ => {
+            // tiny but non-zero
+            let sc = 10f64.powf(case.src.f64_in(-20.0, -12.0));
+            (0..n).map(|_| sc * case.src.f64_in(-1.0, 1.0)).collect()
+        }
     };
     let tol = 10f64.powf(case.src.f64_in(-12.0, -2.0));
     let budget = match case.src.below(8) {
@@ -148,7 +161,7 @@ impl Prop for C08 {
     }
     fn rule(&self) -> String {
         "random square sparse systems of order 1..=30 (thorough 1..=60) of kinds {SPD diagonally dominant, SPD B^T B + mu I, symmetric indefinite, strictly diagonally dominant nonsymmetric with positive / mixed-sign diagonal, \
-         general nonsymmetric, singular (zero row / zero column / equal rows), badly scaled by 2^+-20 rows and columns}; right-hand side zero / consistent / random of scale 1e-6..1e6; initial guess zero / random / exact / huge (1e8); \
+         general nonsymmetric, singular (zero row / zero column / equal rows), badly scaled by 2^+-20 rows and columns}; optionally the whole matrix times 2^k, |k| <= 30; right-hand side zero / consistent / random of scale 1e-6..1e6 (1/3 of them 1e-140..1e140); initial guess zero / random / exact / huge (1e8) / tiny non-zero (1e-20..1e-12); \
          tol = 10^[-12,-2]; budget in {0,1,2,3,n,10n,1000,random}; all five entry points (CG, BiCG itol 1/2, BiCGSTAB, QMR) on every generated system of every kind. The implication is judged whenever the answer is Ok: \
          iterations <= budget, x finite, ||b - A x||_2 (dense copy, double-double) <= tol*||b||*(1+1e-9) + 200(n+2)*eps*(it+1)*(||A||_F*Xmax + ||b||), Xmax first max(||x0||,||x||) and, only if that fails, measured by re-running the solver with budgets 1..it; \
          budget 0 or Ok(0) => x bitwise untouched. Non-trivial: Ok with >= 2 iterations and n >= 5. distinct = distinct decoded choice sequence."
